@@ -27,7 +27,7 @@ pub fn bump(c: &mut Counts, k: &str) {
 }
 
 fn read_file(repo: &str, file: &str) -> Result<(String, syn::File), String> {
-    let p = format!("{}/{}", repo, file);
+    let p = if file.starts_with('/') { file.to_string() } else { format!("{}/{}", repo, file) };
     let src = std::fs::read_to_string(&p).map_err(|e| format!("lost anchor: cannot read {}: {}", p, e))?;
     let ast = syn::parse_file(&src).map_err(|e| format!("lost anchor: cannot parse {}: {}", p, e))?;
     Ok((src, ast))
